@@ -83,12 +83,25 @@ def check_algebra(w, rep, an, n, tier):
                         if jn not in C:
                             continue
                         allok = True
+                        # a Jacobian that selects on the squared rotation angle against a constant inside (0, 4 pi^2) is
+                        # decided region by region (both regions lie in the property's domain theta < 2 pi)
+                        regions = threshold_regions(w, C[jn], atoms[n - 3:]) if ite_conditions(C[jn]) else None
                         for k, a in enumerate(atoms):
                             dE = mat_diff(E, a)
                             lhs = cm.matmul(dE, Einv) if side == "left" else cm.matmul(Einv, dE)
                             col = w.it.mat_get(C[jn], (slice(0, n), k))
                             rhs = w.call(w.elem(alg, col), "to_Matrix")
                             v, d = decide_mat(lhs, rhs)
+                            if v == UNKNOWN and regions:
+                                v = EQUAL
+                                for rl, Jr in regions:
+                                    rr = w.call(w.elem(alg, w.it.mat_get(Jr, (slice(0, n), k))), "to_Matrix")
+                                    v2, d2 = decide_mat(lhs, rr)
+                                    if v2 == DIFFERENT:
+                                        v, d = DIFFERENT, "for rotation angles with %s: %s" % (rl, d2)
+                                        break
+                                    if v2 == UNKNOWN:
+                                        v, d = UNKNOWN, "for rotation angles with %s: %s" % (rl, d2)
                             if v != EQUAL:
                                 allok = False
                                 (rep.fail if v == DIFFERENT else rep.incomplete)(
@@ -310,3 +323,107 @@ def run(w, rep, tier):
     rep.floor("C05.dexp", 6)
     rep.floor("C05.kin", 9)
     rep.undecided_clause("behaviour on the Taylor branch |theta^2| < 1e-3 and at theta = 0 exactly (C06)")
+
+
+def _pi_value(p):
+    """Numeric value of a polynomial in the symbol pi alone, else None."""
+    import math
+    tot = 0.0
+    for mono, c in p.t.items():
+        v = float(c)
+        for a, e in mono:
+            if not (a.kind == "sym" and a.key[0] == "pi"):
+                return None
+            v *= math.pi ** e
+        tot += v
+    return tot
+
+
+def threshold_regions(w, M, atoms, theta_max=2 * 3.141592653589793):
+    """M contains if_else selections on ONE comparison of the squared norm S = sum(x_i^2) of the algebra parameters with a
+    constant c, 0 < c < theta_max^2: both regions meet the domain 0 < theta < theta_max of the property in an open set, so
+    the identity has to hold in each.  -> [(label, M_region)] with, per region, the if_else resolved, fmin/fmax of the same
+    two operands resolved consistently with it, and sqrt(g^2 P) -> |g| sqrt(P) for a selected scale factor g = a + b/theta
+    of constant sign on the region (seeded C05-14: the Jacobians 'reduce' x to (1 - 2 pi/theta) x beyond pi).
+    None when M is not of that shape."""
+    import math
+    conds = ite_conditions(M)
+    if len(conds) != 1:
+        return None
+    ca_ = conds[0].single_atom()
+    if ca_ is None or ca_.kind not in ("lt", "le"):
+        return None
+    A, B = ca_.key[0], ca_.key[1]
+    S = Poly()
+    for a in atoms:
+        S = S + Poly.atom(a) * Poly.atom(a)
+    if B == S and _pi_value(A) is not None:
+        c, outer_truth = _pi_value(A), True         # c < S
+    elif A == S and _pi_value(B) is not None:
+        c, outer_truth = _pi_value(B), False        # S < c
+    else:
+        return None
+    if not (1e-9 < c < theta_max ** 2 - 1e-9):
+        return None
+    theta = cm.un("sqrt", S)
+    th_atom = theta.single_atom()
+    out = []
+    for label, truth, lo, hi in (("theta^2 > %.4g" % c, outer_truth, math.sqrt(c), theta_max), ("theta^2 < %.4g" % c, not outer_truth, 0.0, math.sqrt(c))):
+        S_big = truth == outer_truth                 # in this region S is the larger operand
+
+        def res(a, truth=truth, S_big=S_big):
+            if a.kind == "ite" and a.key[0] == conds[0]:
+                return deep_subs(a.key[1] if truth else a.key[2], res)
+            if a.kind in ("fmin", "fmax") and isinstance(a.key[0], Poly) and {a.key[0], a.key[1]} == {A, B}:
+                big, small = (S, A if B == S else B) if S_big else (A if B == S else B, S)
+                return big if a.kind == "fmax" else small
+            return None
+        # the selected scale factors: values of the ite branches in this region
+        gs = []
+        for p in M.flat():
+            for a in all_atoms(p):
+                if a.kind == "ite" and a.key[0] == conds[0]:
+                    g = deep_subs(a.key[1] if truth else a.key[2], res)
+                    if g not in gs:
+                        gs.append(g)
+        Mr = MatVal(M.r, M.c, [[deep_subs(p, res) if p.t else p for p in row] for row in M.cells], M.kind)
+        for g in gs:
+            if g.const_value() is not None:
+                continue
+            # g = a + b theta^-1 with a, b polynomials in pi: monotone in theta, so its sign on (lo, hi) is settled at the ends
+            a_, b_ = Poly(), Poly()
+            okg = True
+            for mono, cf in g.t.items():
+                rest = tuple((x_, e_) for x_, e_ in mono if x_ is not th_atom)
+                eth = dict(mono).get(th_atom, 0)
+                term = Poly({rest: cf})
+                if eth == 0:
+                    a_ = a_ + term
+                elif eth == -1:
+                    b_ = b_ + term
+                else:
+                    okg = False
+            av, bv = _pi_value(a_), _pi_value(b_)
+            if not okg or av is None or bv is None:
+                return None
+            ends = [av + bv / max(lo, 1e-12) if lo > 0 else (math.inf if bv > 0 else -math.inf), av + bv / hi]
+            if not (all(v <= 1e-12 for v in ends) or all(v >= -1e-12 for v in ends)):
+                return None
+            sgn = 1 if ends[0] + ends[1] > 0 else -1
+            t = sym_atoms_of(w.sym("scale_abs", 1))[0]
+            # g -> sgn t with t > 0; sqrt(t^2 P) -> t sqrt(P); t -> sgn g
+            # (g occurs through the resolved ite only, so the substitution is done on the unresolved matrix)
+
+            def res_t(a, truth=truth, g=g, t=t, sgn=sgn):
+                if a.kind == "ite" and a.key[0] == conds[0]:
+                    gg = deep_subs(a.key[1] if truth else a.key[2], res)
+                    if gg == g:
+                        return Poly.atom(t).scale(sgn)
+                    return gg
+                return res(a)
+            Mt = MatVal(M.r, M.c, [[deep_subs(p, res_t) if p.t else p for p in row] for row in M.cells], M.kind)
+            Mt = pull_positive(Mt, t)
+            back = g.scale(sgn)
+            Mr = MatVal(M.r, M.c, [[deep_subs(p, lambda a, t=t, back=back: back if a is t else None) if p.t else p for p in row] for row in Mt.cells], M.kind)
+        out.append((label, Mr))
+    return out
